@@ -239,7 +239,8 @@ def read_cases(path):
 # Judgement
 # ---------------------------------------------------------------------------------------------
 
-PAIR = re.compile(r"\(\s*(\d+)%N\s*,\s*(\d+)%N\s*\)")
+PAIR = re.compile(r"\(\s*(\d+)(?:%N)?\s*,\s*(\d+)(?:%N)?\s*\)")
+SENTINEL = 4000000007  # a pair (SENTINEL, 7) is appended to every verdict list: parsing is checked, not assumed
 
 
 def judge_cases(pid, corr_module, cases, workdir, timeout=900):
@@ -263,7 +264,7 @@ def judge_cases(pid, corr_module, cases, workdir, timeout=900):
             f.write("Definition cases : list (N * case) := [\n")
             f.write(";\n".join("(%d%%N, %s)" % (idx, c["coq"]) for idx, c in sh_cases))
             f.write("\n].\n")
-            f.write("Definition verdicts := Eval vm_compute in judge_all judge cases.\n")
+            f.write("Definition verdicts := Eval vm_compute in (judge_all judge cases ++ [(%d%%N, 7%%N)])%%list.\n" % SENTINEL)
             f.write("Print verdicts.\n")
         jobs.append(vf)
     codes, errors = {}, []
@@ -279,8 +280,14 @@ def judge_cases(pid, corr_module, cases, workdir, timeout=900):
             if "verdicts =" not in out:
                 errors.append("%s: no verdicts in output\n%s" % (os.path.basename(vf), out[-2000:]))
                 continue
-            for m in PAIR.finditer(out):
-                codes[int(m.group(1))] = int(m.group(2))
+            seen_sentinel = False
+            for m in PAIR.finditer(out[out.index("verdicts ="):]):
+                if int(m.group(1)) == SENTINEL and int(m.group(2)) == 7:
+                    seen_sentinel = True
+                else:
+                    codes[int(m.group(1))] = int(m.group(2))
+            if not seen_sentinel:
+                errors.append("%s: verdict list could not be parsed (sentinel missing)\n%s" % (os.path.basename(vf), out[-1500:]))
     return codes, errors
 
 
@@ -485,9 +492,9 @@ def _run_check(cfg, tier, seed):
             seen_known.setdefault(c - 100, []).append(i)
         else:
             unknown_fail.append((i, c))
-    for k, idxs in sorted(seen_known.items()):
-        known_lines.append("KNOWN-FINDING: property=%s %s (class %d; %d cases this run)"
-                           % (pid, known_classes[k]["what"], k, len(idxs)))
+    for k in sorted(known_classes):
+        known_lines.append("KNOWN-FINDING: property=%s %s (class %d; observed in %d cases this run)"
+                           % (pid, known_classes[k]["what"], k, len(seen_known.get(k, []))))
 
     # ---- 4. verdict ---------------------------------------------------------------------------
     def case_payload(c, code):
